@@ -26,7 +26,24 @@ fn show(c: Option<Captures<'_>>) -> String {
 }
 
 fn op(re: &Regex, kind: usize, text: &str) -> String {
-    match kind % 4 {
+    match kind % 5 {
+        4 => {
+            // group metadata (the shared name table) and access by name
+            let names: Vec<String> = re.capture_names().map(|n| n.unwrap_or("_").to_string()).collect();
+            let by_name = match re.captures(text) {
+                Ok(Some(c)) => names
+                    .iter()
+                    .map(|n| match c.name(n) {
+                        Some(m) => format!("{}=({},{})", n, m.start(), m.end()),
+                        None => format!("{}=_", n),
+                    })
+                    .collect::<Vec<_>>()
+                    .join(","),
+                Ok(None) => "-".to_string(),
+                Err(e) => format!("Err({:?})", e),
+            };
+            format!("{:?} {} len={}", names, by_name, re.captures_len())
+        }
         0 => match re.captures(text) {
             Ok(c) => show(c),
             Err(e) => format!("Err({:?})", e),
@@ -52,15 +69,26 @@ fn op(re: &Regex, kind: usize, text: &str) -> String {
     }
 }
 
+/// Which operation thread `t` performs as its `k`-th: the first operation of threads 0 and 2 is the
+/// metadata one (first concurrent use of anything lazily built), the rest rotate through the API.
+fn kind_of(t: usize, k: usize, which: usize) -> usize {
+    if k == 0 && t != 1 {
+        4
+    } else {
+        t + k + which
+    }
+}
+
 fn main() {
     // which scenario: argv[1] (default 0). Kept tiny: Miri interprets every instruction.
     let which: usize = std::env::args().nth(1).and_then(|s| s.parse().ok()).unwrap_or(0);
     // (pattern, texts): a VM program with a capture-carrying Delegate, a backreference program,
     // and a pattern delegated as a whole (regex-automata's cache pool)
-    let scenarios: [(&str, [&str; 3]); 3] = [
-        (r"([0-9][0-9])-([0-9])(?![0-9])", ["12-3", "x 45-6 y", "78-90 1-2"]),
+    let scenarios: [(&str, [&str; 3]); 4] = [
+        (r"(?<y>[0-9][0-9])-(?<m>[0-9])(?![0-9])", ["12-3", "x 45-6 y", "78-90 1-2"]),
         (r"(a+)b\1", ["aabaa", "abab", "aaab"]),
         (r"([a-z])-([a-z])", ["a-b", "--c-d", "zz"]),
+        (r"(?<w>[a-z]+)(?<n>[0-9])?(?=!)", ["ab1!", "x! y2!", "zz"]),
     ];
     let (pattern, texts) = scenarios[which % scenarios.len()];
     let re = Arc::new(Regex::new(pattern).expect("pattern compiles"));
@@ -71,7 +99,7 @@ fn main() {
     for t in 0..n_threads {
         let mut v = Vec::new();
         for k in 0..ops_per_thread {
-            v.push(op(&re, t + k + which, texts[(t + k) % texts.len()]));
+            v.push(op(&re, kind_of(t, k, which), texts[(t + k) % texts.len()]));
         }
         solo.push(v);
     }
@@ -89,7 +117,7 @@ fn main() {
             };
             let mut v = Vec::new();
             for k in 0..ops_per_thread {
-                v.push(op(r, t + k + which, texts[(t + k) % texts.len()]));
+                v.push(op(r, kind_of(t, k, which), texts[(t + k) % texts.len()]));
             }
             v
         }));
